@@ -10,6 +10,7 @@ import (
 	"crypto/sha1"
 	"encoding/json"
 	"fmt"
+	"git.defalsify.org/vise.git/db"
 	"os"
 	"os/signal"
 	"runtime"
@@ -107,6 +108,14 @@ func cmdFsReq(args []string) error {
 		res.Err = err.Error()
 	} else {
 		en.Flush(ctx, bytes.NewBuffer(nil))
+	}
+	// VERIF_APPDATA=1: the application keeps data of its own in the same store, through the same handle (the documentation
+	// allows sharing the persistence store with application data): a write under another data type between Exec and Finish
+	if os.Getenv("VERIF_APPDATA") != "" {
+		store.SetPrefix(db.DATATYPE_USERDATA)
+		if err := store.Put(ctx, []byte("visits"), []byte("seen:"+args[2])); err != nil {
+			return err
+		}
 	}
 	// VERIF_FSIZE=<k>: from here on a regular file may not grow beyond / be written past k bytes (RLIMIT_FSIZE): the kernel
 	// accepts a partial write and the process then dies of SIGXFSZ - a real process death in the middle of a write
